@@ -4,6 +4,7 @@ CONSTANTS
   Focuses = {}
   Counts = {}
   Filters = {}
+  L1Variant = "fixed"
   TwoFocuses = {}
 INVARIANT Verdicts
 POSTCONDITION Accepted
